@@ -102,6 +102,43 @@ let run_model (engine : string) (prog : program) (h : n list) (start : int) (bud
   else
     let ((((ms, res), steps), _), _) = drv_pk ascii prog h (n_of_int budget) fuel (nat_of_int start) in fin (ms, res, steps)
 
+
+(* ---- IR token parser (prefix form) ---- *)
+let rec parse_node (toks : string list) : node * string list =
+  let nat s = nat_of_int (ios s) in
+  let nn s = n_of_string s in
+  let take_ns k t = let (a, r) = take k t in (List.map nn a, r) in
+  match toks with
+  | "Empty" :: t -> (NEmpty, t)
+  | "Goal" :: t -> (NGoal, t)
+  | "Char" :: c :: t -> (NChar (nn c), t)
+  | "BSeq" :: k :: t -> let (a, r) = take_ns (ios k) t in (NByteSequence a, r)
+  | "BSet" :: k :: t -> let (a, r) = take_ns (ios k) t in (NByteSet a, r)
+  | "CSet" :: k :: t -> let (a, r) = take_ns (ios k) t in (NCharSet a, r)
+  | "Cat" :: k :: t ->
+    let rec go k t = if k = 0 then ([], t) else let (x, r) = parse_node t in let (xs, r2) = go (k - 1) r in (x :: xs, r2) in
+    let (l, r) = go (ios k) t in (NCat l, r)
+  | "Alt" :: t -> let (a, r) = parse_node t in let (b, r2) = parse_node r in (NAlt (a, b), r2)
+  | "Any" :: t -> (NMatchAny, t)
+  | "AnyNL" :: t -> (NMatchAnyExceptLT, t)
+  | "Anchor" :: s :: m :: t -> (NAnchor (bos s, bos m), t)
+  | "WB" :: i :: u :: t -> (NWordBoundary (bos i, bos u), t)
+  | "CG" :: id :: nm :: t -> let (c, r) = parse_node t in (NCaptureGroup (nat id, c, (if nm = "-" then None else Some (parse_hex nm))), r)
+  | "BR" :: g :: ic :: t -> (NBackRef (nn g, bos ic), t)
+  | "Brk" :: inv :: k :: t -> let (a, r) = take (2 * ios k) t in (NBracket { br_invert = bos inv; br_ivs = pairs a }, r)
+  | "SS" :: ic :: k :: t ->
+    let rec go k t = if k = 0 then ([], t) else
+      (match t with
+       | len :: t' -> let (a, r) = take_ns (ios len) t' in let (xs, r2) = go (k - 1) r in (a :: xs, r2)
+       | [] -> failwith "SS") in
+    let (alts, r) = go (ios k) t in (NStringSet (alts, bos ic), r)
+  | "LA" :: ng :: bw :: sg :: eg :: t -> let (c, r) = parse_node t in (NLookaround (bos ng, bos bw, nat sg, nat eg, c), r)
+  | "Loop" :: mn :: mx :: g :: egs :: ege :: t ->
+    let (c, r) = parse_node t in (NLoop (c, nn mn, (if mx = "-" then None else Some (nn mx)), bos g, nat egs, nat ege), r)
+  | "L1" :: mn :: mx :: g :: t ->
+    let (c, r) = parse_node t in (NLoop1CharBody (c, nn mn, (if mx = "-" then None else Some (nn mx)), bos g), r)
+  | _ -> failwith ("parse_node: " ^ String.concat " " (match toks with a :: b :: c :: _ -> [a; b; c] | l -> l))
+
 (* ---- property evaluation on the implementation's own results (no model involved) ---- *)
 type rrec = { engine : string; status : string; steps : int; ms : imatch list }
 
@@ -116,6 +153,10 @@ let main_exec () =
   let prog : program option ref = ref None in
   let hay = ref [] and hayhex = ref "" and start = ref 0 in
   let total_steps = ref 0 in
+  let ir0 : node option ref = ref None and ir1 : node option ref = ref None in
+  let multiline = ref false and gnames : n list list ref = ref [] in
+  let stage_checks = ref 0 in
+  let utf16 = (try Sys.getenv "RV_UTF16" = "1" with Not_found -> false) in
   let group : rrec list ref = ref [] in
   let prev_opt : (string * int * string, rrec) Hashtbl.t = Hashtbl.create 64 in
   let prev_opt_id = ref "" in
@@ -219,7 +260,26 @@ let main_exec () =
     | None, Some (nl, ng, uni, sp) ->
       let p = { p_insns = List.rev !insns; p_brackets = List.rev !brs; p_loops = nat_of_int nl;
                 p_groups = nat_of_int ng; p_start_pred = sp; p_unicode = uni } in
-      prog := Some p; p
+      prog := Some p;
+      (* S2: optimizer, S3: emitter + start predicate, on the implementation's own IR *)
+      (match !ir0 with
+       | None -> ()
+       | Some n0 ->
+         let emit_in = (match !ir1 with
+           | Some n1 ->
+             incr stage_checks;
+             (match optimize utf16 n0 with
+              | Ok m -> if m <> n1 then begin incr mism; Printf.printf "MISMATCH stage=S2-optimize case=%s pat=%s flags=%s\n" !cur_id !cur_pat !cur_flags end
+              | Err _ -> incr mism; Printf.printf "MISMATCH stage=S2-optimize case=%s pat=%s flags=%s model=error\n" !cur_id !cur_pat !cur_flags);
+             n1
+           | None -> n0) in
+         incr stage_checks;
+         (match emit utf16 uni !multiline emit_in with
+          | Ok (mp, mnames) ->
+            if mp <> p then begin incr mism; Printf.printf "MISMATCH stage=S3-emit case=%s pat=%s flags=%s\n" !cur_id !cur_pat !cur_flags end
+            else if mnames <> !gnames then begin incr mism; Printf.printf "MISMATCH stage=S3-names case=%s pat=%s flags=%s\n" !cur_id !cur_pat !cur_flags end
+          | Err _ -> incr mism; Printf.printf "MISMATCH stage=S3-emit case=%s pat=%s flags=%s model=error\n" !cur_id !cur_pat !cur_flags));
+      p
     | None, None -> failwith "no program" in
   (try
     while true do
@@ -228,7 +288,10 @@ let main_exec () =
       match toks with
       | "C" :: id :: pat :: fl :: _ ->
         incr cases; cur_id := id; cur_pat := pat; cur_flags := fl;
-        insns := []; brs := []; hdr := None; prog := None
+        insns := []; brs := []; hdr := None; prog := None; ir0 := None; ir1 := None
+      | "N0" :: rest -> ir0 := Some (fst (parse_node rest))
+      | "N1" :: rest -> ir1 := Some (fst (parse_node rest))
+      | "NM" :: ml :: _ :: rest -> multiline := bos ml; gnames := List.map parse_hex rest
       | "G" :: nl :: ng :: uni :: sp -> hdr := Some (ios nl, ios ng, bos uni, parse_sp sp)
       | "I" :: rest -> insns := parse_insn rest :: !insns
       | "B" :: inv :: rest -> brs := { br_invert = bos inv; br_ivs = pairs rest } :: !brs
@@ -253,12 +316,12 @@ let main_exec () =
           Printf.printf "MISMATCH case=%s pat=%s flags=%s hay=%s start=%d engine=%s impl=%s/%d/%s model=%s/%d/%s\n"
             !cur_id !cur_pat !cur_flags !hayhex !start engine status impl_steps (show_matches impl_ms) mst msteps (show_matches mms)
         end
-      | ["E"] -> end_case ()
+      | ["E"] -> (if !hdr <> None then ignore (build ())); end_case ()
       | [] -> ()
       | _ -> failwith ("bad line: " ^ line)
     done
   with End_of_file -> ());
-  Printf.printf "SUMMARY cases=%d runs=%d mismatches=%d nontrivial=%d model_steps=%d propviol=%d inconclusive=%d\n" !cases !runs !mism !nontrivial !total_steps !pviol !inconclusive
+  Printf.printf "SUMMARY cases=%d runs=%d mismatches=%d nontrivial=%d model_steps=%d propviol=%d inconclusive=%d stage_checks=%d\n" !cases !runs !mism !nontrivial !total_steps !pviol !inconclusive !stage_checks
 
 let () =
   match Array.to_list Sys.argv with
